@@ -79,11 +79,12 @@ impl Definition {
 
 fn span_contains(span: Span, tree: &ParseTree, path: &Path, pos: LineCol) -> bool {
     let loc = tree.code_map.look_up_span(span);
-    loc.file.name() == path.to_str().unwrap()
-        && pos.line >= loc.begin.line
-        && pos.line <= loc.end.line
-        && pos.column >= loc.begin.column
-        && pos.column <= loc.end.column
+    // (a span that covers several lines is not a rectangle: the columns only matter on its first and on its last line)
+    let after_begin = pos.line > loc.begin.line
+        || (pos.line == loc.begin.line && pos.column >= loc.begin.column);
+    let before_end =
+        pos.line < loc.end.line || (pos.line == loc.end.line && pos.column <= loc.end.column);
+    loc.file.name() == path.to_str().unwrap() && after_begin && before_end
 }
 
 pub struct Analysis {
